@@ -26,11 +26,15 @@ const shim = "github.com/openebs/jiva/verifshim/"
 var chanRanges = map[string]bool{}
 var counter int
 
-func id(s string) *ast.Ident                           { return ast.NewIdent(s) }
-func sel(p, n string) ast.Expr                         { return &ast.SelectorExpr{X: id(p), Sel: id(n)} }
-func call(f ast.Expr, args ...ast.Expr) *ast.CallExpr  { return &ast.CallExpr{Fun: f, Args: args} }
-func src(fset *token.FileSet, n ast.Node) string       { var b bytes.Buffer; format.Node(&b, fset, n); return b.String() }
-func tmp(p string) string                              { counter++; return fmt.Sprintf("__%s%d", p, counter) }
+func id(s string) *ast.Ident                          { return ast.NewIdent(s) }
+func sel(p, n string) ast.Expr                        { return &ast.SelectorExpr{X: id(p), Sel: id(n)} }
+func call(f ast.Expr, args ...ast.Expr) *ast.CallExpr { return &ast.CallExpr{Fun: f, Args: args} }
+func src(fset *token.FileSet, n ast.Node) string {
+	var b bytes.Buffer
+	format.Node(&b, fset, n)
+	return b.String()
+}
+func tmp(p string) string { counter++; return fmt.Sprintf("__%s%d", p, counter) }
 
 func isRecv(e ast.Expr) (ast.Expr, bool) {
 	if u, ok := e.(*ast.UnaryExpr); ok && u.Op == token.ARROW {
